@@ -10,7 +10,7 @@ use crate::conv::{pid_val, ref_val, to_pid};
 use crate::core::{Rng, Tape, World, YieldCfg, execute};
 use crate::net::EndCfg;
 use crate::nodeenv::{COOKIE, PEER_NAME, SUT_NAME, install_conforming_peer};
-use crate::peer::{NetCfg, OTP_FLAGS_BASE, ServerConn, install_epmd, read_frame4};
+use crate::peer::{NetCfg, OTP_FLAGS_BASE, ServerConn, read_frame4};
 use crate::runner::{Info, RunOutput, Scenario, Tier, finish};
 use crate::wire::{self, RecvCache, Val};
 use edp_node::{Message, Node, Process};
@@ -39,6 +39,9 @@ struct Plan {
     /// the node is built with Node::new_hidden
     #[serde(default)]
     hidden: bool,
+    /// EPMD's replies arrive a byte at a time
+    #[serde(default)]
+    epmd_choppy: bool,
     /// operations issued before Node::start (only those that do not need a started node)
     #[serde(default)]
     before_start: Vec<Op>,
@@ -97,6 +100,7 @@ impl Scenario for C16N {
             epmd_creation: *r.pick(&[1u32, 1, 2, 3, 0xffff, 70_000, u32::MAX]),
             epmd_legacy: r.chance(1, 3),
             hidden: r.chance(1, 3),
+            epmd_choppy: r.chance(1, 3),
             before_start: gen_ops(r, n_before, false),
             tasks: (0..n_tasks).map(|_| { let n = r.range(1, 8) as usize; gen_ops(r, n, true) }).collect(),
             near_wrap: if r.chance(1, 4) { r.range(1, 6) as u32 } else { 0 },
@@ -246,7 +250,7 @@ async fn do_op(w: &Arc<World>, node: &Node, op: &Op, me: &Val, seen: &Arc<Mutex<
 async fn scenario(w: &Arc<World>, p: &Plan) {
     let seen = Arc::new(Mutex::new(Seen::default()));
     let locals: Arc<Mutex<Vec<Val>>> = Arc::new(Mutex::new(Vec::new()));
-    install_epmd(w, p.epmd_creation, "peer", 5555, !p.epmd_legacy);
+    crate::peer::install_epmd_net(w, p.epmd_creation, "peer", 5555, !p.epmd_legacy, 0, p.epmd_choppy);
     {
         let seen2 = seen.clone();
         let wea = p.write_error_after;
